@@ -442,10 +442,18 @@ func (option *Option) isValueValidator() ValueValidator {
 func (option *Option) isBool() bool {
 	tp := option.value.Type()
 
+	unmarshaler := reflect.TypeOf((*Unmarshaler)(nil)).Elem()
+
 	for {
 		switch tp.Kind() {
 		case reflect.Slice, reflect.Ptr:
 			tp = tp.Elem()
+
+			// elements that read their own argument are not switches,
+			// whatever their kind
+			if tp.Implements(unmarshaler) || reflect.PtrTo(tp).Implements(unmarshaler) {
+				return false
+			}
 		case reflect.Bool:
 			return true
 		case reflect.Func:
